@@ -106,7 +106,7 @@ func (d DiscreteGaussian) Type() string {
 func (d DiscreteGaussian) MarshalJSON() ([]byte, error) {
 	return json.Marshal(struct {
 		Type         string
-		Sigma, Bound float64 `json:",omitempty"`
+		Sigma, Bound float64 // always written: ParametersFromMap requires both
 	}{d.Type(), d.Sigma, d.Bound})
 }
 
